@@ -166,7 +166,7 @@ Definition Y := 0. Definition X0 := 1. Definition DREG := 2.
 Definition sy := 10. Definition x := 11. Definition r := 12. Definition c := 13. Definition t := 14.
 Definition opc := 15. Definition s := 16. Definition q := 17. Definition u := 18. Definition v := 19.
 Definition w := 20. Definition xold := 21. Definition res := 22. Definition grad := 23. Definition z := 24.
-Definition yn := 25. Definition dk := 26. Definition dtot := 27.
+Definition yn := 25. Definition dk := 26. Definition dtot := 27. Definition sz := 28.
 
 (* cls_basic.CG.setup / step *)
 Definition cg_setup (x0given view : bool) : list stmt :=
@@ -198,16 +198,21 @@ Definition ista_step (view : bool) : list stmt :=
   [SCopy xold x; SApply t view x; SFresh res; SApply t view res; SFresh grad; SFresh x].
 Definition fista_enter : list stmt := [SCopy z x].
 Definition fista_step (view : bool) : list stmt :=
-  [SCopy xold x; SApply t view z; SFresh res; SApply t view res; SFresh grad; SFresh x; SFresh z].
+  [SCopy xold x; SApply t view z; SFresh res; SApply t view res; SFresh grad; SFresh x; SFresh z; SAlias sz z].
 
 (* cls_sparsity.OMP, matching-pursuit branch (niter_inner = 0) has the only in-place write *)
 Definition omp_setup : list stmt := [SAlias sy Y; SCopy res sy].
 Definition omp_step (view : bool) : list stmt := [SApply t view res; SApply opc view t; SInplace res].
 
-(* cls_leastsquares.NormalEquationsInversion.setup with one regularisation term:
+(* cls_leastsquares.NormalEquationsInversion.setup with one regularisation term
+   (since 1f77362 the accumulation allocates):
      self.y_normal = self.Op.rmatvec(y)
-     self.y_normal += epsR**2 * Reg.rmatvec(datareg)                         *)
+     self.y_normal = self.y_normal + epsR**2 * Reg.rmatvec(datareg)
+   run:  self.y_normal = self.y_normal - self.Op_normal.matvec(x)             *)
 Definition normal_eq_setup (view : bool) : list stmt :=
+  [SAlias sy Y; SApply yn view Y; SApply t view DREG; SFresh yn; SApply t view X0; SFresh yn].
+(* LEGACY (before 1f77362): in-place accumulation on what may be the caller's y *)
+Definition normal_eq_setup_legacy (view : bool) : list stmt :=
   [SAlias sy Y; SApply yn view Y; SApply t false DREG; SInplace yn].
 (* RegularizedInversion.setup: datatot = y.copy(); datatot = hstack(...) *)
 Definition regularized_setup : list stmt := [SAlias sy Y; SCopy dtot sy; SFresh dtot].
@@ -280,16 +285,20 @@ Theorem regularized_no_caller_write : forall (e : env) n0 l,
   In l (hwritten (exec regularized_setup (caller_heap e n0))) -> n0 <= l.
 Proof. apply (no_caller_write regularized_setup [dtot]). reflexivity. Qed.
 
-(* normal equations: safe when Op.rmatvec allocates ... *)
-Theorem normal_eq_no_caller_write_partial : forall (e : env) n0 l,
-  In l (hwritten (exec (normal_eq_setup false) (caller_heap e n0))) -> n0 <= l.
-Proof. apply (no_caller_write (normal_eq_setup false) [t; yn]). reflexivity. Qed.
+(* normal equations: no write at all, also for operators that return their input *)
+Theorem normal_eq_no_caller_write : forall view (e : env) n0 l,
+  In l (hwritten (exec (normal_eq_setup view) (caller_heap e n0))) -> n0 <= l.
+Proof.
+  intros view. destruct (analyse (normal_eq_setup view) []) as [OW|] eqn:E;
+    [|destruct view; vm_compute in E; discriminate].
+  apply (no_caller_write _ OW E).
+Qed.
 
-(* ... and refuted when it returns its input (Identity, inplace=True): the
-   caller's y is written *)
 Definition caller_env : env := fun v => if Nat.eqb v Y then Some 0 else if Nat.eqb v X0 then Some 1
                                         else if Nat.eqb v DREG then Some 2 else None.
-Theorem normal_eq_inplace_refuted :
-  accepts (normal_eq_setup true) = false /\
-  exists l, caller_env Y = Some l /\ In l (hwritten (exec (normal_eq_setup true) (caller_heap caller_env 3))).
+
+(* Legacy record of the repaired defect: the old statement list is rejected and writes y *)
+Theorem normal_eq_legacy_inplace_refuted :
+  accepts (normal_eq_setup_legacy true) = false /\
+  exists l, caller_env Y = Some l /\ In l (hwritten (exec (normal_eq_setup_legacy true) (caller_heap caller_env 3))).
 Proof. split; [reflexivity|]. exists 0. split; [reflexivity|]. vm_compute. left. reflexivity. Qed.
